@@ -45,6 +45,7 @@ type C09Case struct {
 
 func c09Spec() world.Spec {
 	s := stdSpec()
+	s.Users[0].Custom = append(s.Users[0].Custom, world.CustomAttr{Name: "groups0", NameFormat: "urn:oasis:names:tc:SAML:2.0:attrname-format:basic", Values: []string{"admin", "user", "billing", "user", ""}})
 	ec := stdSP(3)
 	ec.KeyNames = []string{"sp-ecdsa"}
 	ed := stdSP(4)
@@ -189,7 +190,9 @@ func c09FullQuery(issuer string) spsim.AttrQuery {
 	q.Destination = "https://idp.example/saml/attribute"
 	q.Attrs = []spsim.QAttr{
 		{Name: "Email", NameFormat: "urn:oasis:names:tc:SAML:2.0:attrname-format:basic", FriendlyName: "mail"},
-		{Name: "custom0", NameFormat: "urn:oasis:names:tc:SAML:2.0:attrname-format:basic", FriendlyName: A},
+		{Name: "custom0", NameFormat: "urn:oasis:names:tc:SAML:2.0:attrname-format:basic", FriendlyName: A, Values: []string{"cvalmark0-a", "nobody-has-this-value"}},
+		{Name: "custom0", NameFormat: "urn:oasis:names:tc:SAML:2.0:attrname-format:basic", FriendlyName: A, Values: []string{"nobody-has-this-value"}},
+		{Name: "groups0", NameFormat: "urn:oasis:names:tc:SAML:2.0:attrname-format:basic", FriendlyName: A, Values: []string{"admin"}},
 	}
 	return q
 }
